@@ -7,7 +7,8 @@
     - [json_parse b]    : serde_json: [Err] = not JSON; [Ok None] = JSON but not an object;
                           [Ok (Some m)] = an object, [m] its canonical serialisation (serde_json::to_vec
                           of the key-ordered map)
-    - [hash b]          : the 64-bit content hash (AHash with fixed keys) *)
+    - [hash b]          : the 64-bit content hash (AHash with fixed keys)
+    - [drop_tail c b]   : see below *)
 Require Import PM.Base.
 Open Scope N_scope.
 
@@ -22,7 +23,11 @@ Record ctx := mkCtx {
   comp : bool -> compression -> bytes -> bytes;
   decomp : compression -> bytes -> bytes * bool;
   json_parse : bytes -> outcome (option bytes);
-  hash : bytes -> N
+  hash : bytes -> N;
+  (* how many trailing bytes of [comp false c b] the synchronous encoder emits only when it is
+     dropped (after [flush()] has returned); informational for the operation log, no theorem
+     depends on its value *)
+  drop_tail : compression -> bytes -> N
 }.
 
 Section WithCtx.
@@ -83,7 +88,7 @@ Proof. reflexivity. Qed.
 (** a concrete context satisfying all laws: identity codec, canonical JSON = the bytes, hash = little-endian value *)
 Definition ctx_id : ctx :=
   mkCtx (fun _ _ b => b) (fun _ b => (b, true)) (fun b => Ok (Some b))
-        (fun b => fold_right (fun x acc => x + 256 * acc + 1) 0 b).
+        (fun b => fold_right (fun x acc => x + 256 * acc + 1) 0 b) (fun _ _ => 0).
 Lemma ctx_id_inv : codec_inv ctx_id. Proof. intros asy c b _ _. reflexivity. Qed.
 Lemma ctx_id_wf : codec_wf ctx_id. Proof. intros asy c b H. exact H. Qed.
 Lemma ctx_id_size : codec_size ctx_id. Proof. intros asy c b. cbn [ctx_id comp]. unfold nlen. lia. Qed.
